@@ -2,7 +2,7 @@ from lanes import *  # noqa
 
 PROP = {
     "level": "exploration",
-    "level_text": "Seeded exploration with a reference renderer and normal-form equality as oracle: 300 k (quick) to 12 M (thorough) seeded part sequences over an alphabet with 1-4 byte characters, braces and spaces (empty fragments, adjacent fragments, repeated and empty labels, holes with formatters), each built in every construction variant (borrowed, 'static, owned, shared Str, by_ref, to_owned, clone, new_owned, literal), rendered through Display, Render::write into a String, a writer that only has the trait defaults, a callback-recording writer, Template's own Display and Event::msg(), with property sets that contain duplicates and absences; `==` is asked in both argument orders on re-splittings, one-edit neighbours, independently drawn (unrelated) pairs and all variants of one model, plus reflexivity and transitivity over every triple of five related templates, all under catch_unwind. 56 fixed tpl!/evt!/format! literal call sites are compared with the runtime-built template of the same literal and, for #[emit::fmt] flags, with std::format!. Held-on-what-was-observed, not a proof over all texts; the generated-programs lane for literals is added separately.",
+    "level_text": "Seeded exploration with a reference renderer and normal-form equality as oracle: 300 k (quick) to 12 M (thorough) seeded part sequences over an alphabet with 1-4 byte characters, braces and spaces (empty fragments, adjacent fragments, repeated and empty labels, holes with formatters), each built in every construction variant (borrowed, 'static, owned, shared Str, by_ref, to_owned, clone, new_owned, literal), rendered through Display, Render::write into a String, a writer that only has the trait defaults, a callback-recording writer (plain write_str output is recorded separately and never expected), a writer whose write_text transforms text character by character and marks holes and raw write_str output differently (so every text fragment must arrive through write_text, for zero-part, one-text-part / literal and multi-part templates alike, and differently split equal templates must produce identical output), Template's own Display and Event::msg(), with property sets that contain duplicates and absences; `==` is asked in both argument orders on re-splittings, one-edit neighbours, independently drawn (unrelated) pairs and all variants of one model, plus reflexivity and transitivity over every triple of five related templates, all under catch_unwind. One seeded case and one unrelated-pair block in four take every text fragment, hole label and property key as a sub-slice of ONE shared buffer (prefixes that start at the same address with different lengths such as user / user_id or the ancestors of a dotted name, the empty prefix, suffixes, infixes, equal text at different addresses) through literal_ref / new_ref / text_ref / hole_ref / hole_str(Str::new_ref) and borrowed &str / Str keys, plus 22 hand-written templates over the buffers 'user_id', 'a.b.c' and 'ab.ab' compared pairwise and rendered with keys from the same buffer; the model compares by content only. 56 fixed tpl!/evt!/format! literal call sites are compared with the runtime-built template of the same literal and, for #[emit::fmt] flags, with std::format!. Held-on-what-was-observed, not a proof over all texts; the generated-programs lane for literals is added separately.",
     "level_note": "Trusts the reference renderer / normal form in harness/mon/src/bin/c16.rs and that Value's Display of i64 / f64 / bool / str equals the std text of the same value (checked at start-up; a mismatch makes the run inconclusive instead of blaming templates). The Miri lane watches Str's raw-pointer ownership (owned / shared / borrowed text and labels through to_owned, by_ref, clone and drop) and the byte-offset slicing in PartialEq while the same workload runs at tiny scale.",
     "technique": "runtime monitoring: reference renderer and normal-form equality over seeded part sequences, hand-written boundary pairs and fixed macro literals; Miri build of the same monitor",
     "assumptions": [
